@@ -177,6 +177,13 @@ class Session:
             w_start = w_init.copy()
             res["start"] = "point"
         res["w_start"] = w_start
+        if self.multitask and w_init is not None and np.ndim(w_init) == 2 \
+                and (int(self.plan.get("rng_seed", 0)) + self.logical["solves"]) % 2:
+            # a user's coefficient array need not be C-ordered (the library's own XW and Y are
+            # Fortran-ordered): every other call hands over Fortran-ordered start arrays
+            w_init = np.asfortranarray(w_init)
+            if Xw_init is not None and np.ndim(Xw_init) == 2:
+                Xw_init = np.asfortranarray(Xw_init)
         seams = Seams(faults)
         try:
             with seams.active():
